@@ -92,9 +92,27 @@ pub mod m3 {
         for (i, j) in cells { s.push_str(&format!(" {} {}", i, j)); }
         s
     }
-    pub fn gen_hfwalk(r: &mut Rng, thorough: bool) -> Vec<(String, String)> {
+    /// `hfbest`: the real 3-D height-field cast run with scripted part-cast answers; args = `hfwalk` args + script
+    pub fn hfbest_exec(a: &mut Args) -> String {
+        let ni = a.u(); let nj = a.u(); let hmin = a.f(); let hmax = a.f(); let sc = dx::v(a);
+        let pos12 = dx::iso(a); let vel = dx::v(a); let he = dx::v(a); let max_toi = a.f(); let target = a.f();
+        let script = parse_script(a);
+        let mut hs = px::na::DMatrix::from_element(ni + 1, nj + 1, hmin); hs[(0, 0)] = hmax;
+        let hf = px::shape::HeightField::new(hs, sc);
+        let o = ShapeCastOptions { max_time_of_impact: max_toi, target_distance: target, stop_at_penetration: true, compute_impact_geometry_on_penetration: false };
+        let d = ScriptDispatcher { script, calls: std::sync::Mutex::new(0) };
+        let r = px::query::details::cast_shapes_heightfield_shape(&d, &pos12, &vel, &hf, &Cuboid::new(he), o);
+        fmt_script_result(r, &d)
+    }
+    pub fn gen_hfbest(r: &mut Rng, thorough: bool) -> Vec<(String, String)> {
         let mut v = Vec::new();
-        for it in 0..(if thorough { 15000 } else { 1500 }) {
+        for (_, a) in gen_hfwalk_n(r, if thorough { 6000 } else { 600 }) { let s = gen_script(r); v.push(("hfbest".to_string(), format!("{} {}", a, s))); }
+        v
+    }
+    pub fn gen_hfwalk(r: &mut Rng, thorough: bool) -> Vec<(String, String)> { gen_hfwalk_n(r, if thorough { 15000 } else { 1500 }) }
+    pub fn gen_hfwalk_n(r: &mut Rng, count: usize) -> Vec<(String, String)> {
+        let mut v = Vec::new();
+        for it in 0..count {
             let lat = it % 4 != 3;
             let ni = if lat { *r.pick(&[2usize, 4, 8, 3, 5, 6]) } else { 2 + r.below(7) as usize };
             let nj = if lat { *r.pick(&[2usize, 4, 8, 3, 5, 6]) } else { 2 + r.below(7) as usize };
@@ -237,8 +255,103 @@ pub mod m2 {
         for j in 0..h.num_cells() { if let Some(c) = h.segment_at(j) { if c.a == t.a && c.b == t.b { return Some((0, j)); } } }
         None
     }
-    pub fn hfwalk_exec(_a: &mut Args) -> String { "nofn".into() }
-    pub fn gen_hfwalk(_r: &mut Rng, _thorough: bool) -> Vec<(String, String)> { Vec::new() }
+    /// `hfwalk`: the trace of the real 2-D height-field cast (segments handed to the dispatcher), reported as cells `(0, j)`
+    /// args: `nh h_0 .. h_{nh-1} sx sy nrem idx.. <iso2 pos12> vx vy hex hey max_toi target`
+    pub fn hfwalk_exec(a: &mut Args) -> String {
+        let sh = heightfield(a);
+        let hf = match sh.as_heightfield() { Some(h) => h, None => return "nofn".into() };
+        let pos12 = dx::iso(a); let vel = dx::v(a); let he = dx::v(a); let max_toi = a.f(); let target = a.f();
+        let o = ShapeCastOptions { max_time_of_impact: max_toi, target_distance: target, stop_at_penetration: true, compute_impact_geometry_on_penetration: false };
+        let rec = RecDispatcher { log: std::sync::Mutex::new(Vec::new()) };
+        let g2 = Cuboid::new(he);
+        let _ = px::query::details::cast_shapes_heightfield_shape(&rec, &pos12, &vel, hf, &g2, o);
+        let log = rec.log.lock().unwrap();
+        let mut cells = Vec::new();
+        for g in log.iter() {
+            match hf_cell_of(hf, &**g) { Some(c) => cells.push(c), None => return "unknown-segment".into() }
+        }
+        let mut s = format!("cells {}", cells.len());
+        for (i, j) in cells { s.push_str(&format!(" {} {}", i, j)); }
+        s
+    }
+    /// families (printed with C06_FAMILIES=1): start on a grid line / half / quarter cell / an ulp off a line, inside, at the
+    /// borders and outside the field (flying in or away), right / left / no horizontal motion (signed zeros), removed segments,
+    /// rotated cuboids, `max_time_of_impact` generic, huge, and EXACTLY at / one ulp around the time at which the leading face of
+    /// the box reaches a grid line (the tie of the loop's `>=` break)
+    /// `hfbest`: the real 2-D height-field cast run with scripted part-cast answers; args = `hfwalk` args + script
+    pub fn hfbest_exec(a: &mut Args) -> String {
+        let sh = heightfield(a);
+        let hf = match sh.as_heightfield() { Some(h) => h, None => return "nofn".into() };
+        let pos12 = dx::iso(a); let vel = dx::v(a); let he = dx::v(a); let max_toi = a.f(); let target = a.f();
+        let script = parse_script(a);
+        let o = ShapeCastOptions { max_time_of_impact: max_toi, target_distance: target, stop_at_penetration: true, compute_impact_geometry_on_penetration: false };
+        let d = ScriptDispatcher { script, calls: std::sync::Mutex::new(0) };
+        let r = px::query::details::cast_shapes_heightfield_shape(&d, &pos12, &vel, hf, &Cuboid::new(he), o);
+        fmt_script_result(r, &d)
+    }
+    pub fn gen_hfbest(r: &mut Rng, thorough: bool) -> Vec<(String, String)> {
+        let mut v = Vec::new();
+        for (_, a) in gen_hfwalk_n(r, if thorough { 6000 } else { 600 }, false) { let s = gen_script(r); v.push(("hfbest".to_string(), format!("{} {}", a, s))); }
+        v
+    }
+    pub fn gen_hfwalk(r: &mut Rng, thorough: bool) -> Vec<(String, String)> { gen_hfwalk_n(r, if thorough { 12000 } else { 1200 }, true) }
+    pub fn gen_hfwalk_n(r: &mut Rng, count: usize, print_fam: bool) -> Vec<(String, String)> {
+        let mut v = Vec::new();
+        let mut fam: std::collections::BTreeMap<String, usize> = Default::default();
+        for it in 0..count {
+            let lat = it % 4 != 3;
+            let n = if lat { *r.pick(&[2usize, 4, 8, 3, 5, 6, 1]) } else { 1 + r.below(9) as usize };
+            let w = if lat { *r.pick(&[0.5, 1.0, 2.0]) } else { r.uniform(0.3, 3.0) };
+            let sc = dx::Vector::new(n as f64 * w, *r.pick(&[0.5, 1.0, 2.0]));
+            let hs: Vec<f64> = (0..=n).map(|_| if lat { r.range(-2, 2) as f64 * 0.25 } else { r.uniform(-0.5, 0.5) }).collect();
+            let mut rem = Vec::new();
+            for i in 0..n { if r.below(6) == 0 { rem.push(format!("{}", i)); } }
+            let he = if lat { dx::Vector::new(w * *r.pick(&[0.25, 0.5, 1.0, 1.5]), *r.pick(&[0.25, 0.5])) } else { dx::Vector::new(w * r.uniform(0.1, 1.6), r.uniform(0.1, 1.0)) };
+            let target = match r.below(3) { 0 => 0.0, 1 => 0.125, _ => if lat { 0.25 } else { r.uniform(0.01, 0.5) } };
+            let sgn = |r: &mut Rng| if r.bool() { 1.0 } else { -1.0 };
+            let mut vel = dx::Vector::zeros();
+            let fv = match r.below(8) {
+                0 | 1 | 2 => { vel.x = sgn(r); "axis" }
+                3 => { vel.x = sgn(r); vel.y = sgn(r) * 0.5; "oblique" }
+                4 => { vel.x = sgn(r) / 16.0; vel.y = sgn(r); "steep" }
+                5 => { vel.x = sgn(r) * r.uniform(0.2, 1.0); vel.y = sgn(r) * r.uniform(0.0, 1.0); "random" }
+                6 => { vel.x = sgn(r) * w; vel.y = -0.25; "cell-per-unit" }
+                _ => { vel.x = sgn(r) * 0.0; vel.y = -1.0; "vertical" }
+            };
+            let line = |l: f64| (-0.5 + (1.0 / (n as f64 + 1.0 - 1.0)) * l) * sc.x;
+            let l = match r.below(6) { 0 => r.range(-3, -1), 1 => n as i64 + r.range(1, 3), _ => r.range(0, n as i64) } as f64;
+            let frac = match r.below(5) { 0 | 1 | 2 => 0.0, 3 => 0.5, _ => if lat { 0.25 } else { r.unit() } };
+            let fs = if l < 0.0 || l > n as f64 { if (l < 0.0) == (vel.x > 0.0) { "outside-in" } else { "outside-away" } } else if frac == 0.0 { "on-line" } else { "in-cell" };
+            let mut t = dx::Vector::zeros();
+            t.x = line(l + frac);
+            if frac == 0.0 && t.x != 0.0 && r.below(8) == 0 { t.x = f64::from_bits((t.x.to_bits() as i64 + r.range(-2, 2)) as u64); }
+            let top = hs.iter().cloned().fold(f64::MIN, f64::max) * sc.y; let bot = hs.iter().cloned().fold(f64::MAX, f64::min) * sc.y;
+            t.y = match r.below(4) { 0 => top + he.y + target + *r.pick(&[0.0, 0.5, 2.0]), 1 => bot - he.y - target - 1.0, _ => bot + (top - bot) * *r.pick(&[0.0, 0.5, 1.0]) };
+            vel *= if lat { *r.pick(&[0.5, 1.0, 4.0]) } else { r.logu(0.2, 20.0) };
+            let mut m = match r.below(5) { 0 => dx::gen_iso(r, true, 0.0), 1 => dx::gen_iso(r, false, 0.0), _ => dx::Isometry::identity() };
+            m.translation.vector = t;
+            // the box exactly as the cast computes it: the tie values of max_toi come from its leading face
+            let bb = { use px::bounding_volume::BoundingVolume; Cuboid::new(he).aabb(&m).loosened(target) };
+            let (fm, max_toi) = match r.below(8) {
+                0 | 1 | 2 if vel.x != 0.0 => {
+                    // time at which the leading face reaches a grid line ahead (k lines ahead of the box), exactly / an ulp around
+                    let lead = if vel.x > 0.0 { bb.maxs.x } else { bb.mins.x };
+                    let cur = ((lead / sc.x + 0.5) * n as f64).floor();
+                    let k = cur + if vel.x > 0.0 { r.range(1, 3) as f64 } else { -(r.range(0, 2) as f64) };
+                    let tt = (line(k) - lead) / vel.x;
+                    let tt = if tt.is_finite() && tt > 0.0 { f64::from_bits((tt.to_bits() as i64 + *r.pick(&[0i64, 0, 1, -1, 4, -4])) as u64) } else { 1.0 };
+                    ("max-at-line-arrival", tt)
+                }
+                3 => ("max-huge", f64::MAX),
+                _ => ("max-generic", *r.pick(&[0.5, 2.0, 8.0, 64.0, 1.0e4])),
+            };
+            *fam.entry(format!("hfwalk2 {} {} {}", fv, fs, fm)).or_insert(0) += 1;
+            v.push(("hfwalk".to_string(), format!("{} {} {} {}{}{} {} {} {} {} {}", n + 1, hxs(hs.iter()), dx::hv(&sc), rem.len(), if rem.is_empty() { "" } else { " " }, rem.join(" "),
+                dx::hiso(&m), dx::hv(&vel), dx::hv(&he), hx(max_toi), hx(target))));
+        }
+        if print_fam && std::env::var("C06_FAMILIES").is_ok() { for (k, c) in &fam { eprintln!("family {} {}", k, c); } }
+        v
+    }
     /// small 2-D triangle mesh: a fan / strip of triangles
     pub fn gen_trimesh_tok(r: &mut Rng, lat: bool) -> (String, Vec<dx::Point<f64>>) {
         let n = 3 + r.below(3) as usize; let w = if lat { 2.0 } else { r.uniform(1.0, 2.5) };
